@@ -737,6 +737,46 @@ def rule_const(ctx, rep):
               "qsbr gp.ctr starts even (%d): an online reader could publish 0 = offline" % val, [F.gp])
 
 
+def rule_bpreg(ctx, rep):
+    """bp: the reader word a thread's rcu_read_lock() writes is on the registry the updater scans.  read_lock registers the
+    thread iff its TLS reader pointer is NULL, so (a) that test precedes every access through the pointer and leads to
+    urcu_bp_register(), (b) registration links the slot into the registry before the pointer is set, and (c) whatever releases
+    the calling thread's slot also clears the pointer (shared with C15.key) - otherwise a later section on that thread (from a
+    destructor or handler running during thread exit) uses a word no grace period waits for."""
+    from . import c15      # local import: c15 imports this module
+    m = ctx.mod("bp", "flat")
+    f = m.fn("urcu_bp_read_lock")
+    pat.require(f is not None, "urcu_bp_read_lock vanished")
+    rep.touch(f)
+    reg = pat.calls(f, "urcu_bp_register")
+    pat.require(reg, "bp read_lock: urcu_bp_register call")
+    lv = pat.dom_leaf_atoms(f, reg[0])
+    rep.check(any(a[0] == "eq" and a[2] == ("c", 0) and a[1][0] == "load" and a[1][1] == "@urcu_bp_reader" for a in lv), "C01.bpreg", "read_lock.registers-iff-null",
+              "read_lock registers the thread exactly when its TLS reader pointer is NULL", "urcu_bp_register() is not guarded by `URCU_TLS(urcu_bp_reader) == NULL`", [reg[0].where()])
+    ctrs = [i for i in f.all_insts() if i.op in ("load", "store") and pat.last_field(i.d["ap"]) == "urcu_bp_reader.ctr"]
+    pat.require(ctrs, "bp read_lock: reader word accesses")
+    tests = [t for t, s_, a in pat.branch_edges_on(f, lambda a: a[0] in ("eq", "ne") and a[2] == ("c", 0) and a[1][0] == "load" and a[1][1] == "@urcu_bp_reader")]
+    rep.check(bool(tests) and all(any(f.dominates(t, c) for t in tests) for c in ctrs), "C01.bpreg", "read_lock.test-before-use", "the NULL test precedes every access to the reader word",
+              "reader word accessed before the registration test", [c.where() for c in ctrs[:2]])
+    r = m.fn("urcu_bp_register")
+    rep.touch(r)
+    adds = [c for c in r.all_insts() if c.op == "store" and pat.from_fn_opt(c, "cds_list_add") and pat.from_fn_opt(c, "add_thread")]
+    tls = [s_ for s_ in pat.stores(r, glob="urcu_bp_reader") if ir.const_of(r, s_.args[0]) != 0]
+    pat.require(adds and tls, "bp register: list insertion / TLS store")
+    rep.must_pass("C01.bpreg", "register.linked≺tls", r, [r.entry()], tls, lambda i: i in adds, include_start=True, what="the slot is linked into the registry before the TLS reader pointer is published")
+    n0 = len(rep.results)
+    c15.rule_key(ctx, rep)
+    keep = []
+    for x in rep.results[n0:]:
+        if "clears-tls" in x["instance"]:
+            x["rule"] = "C01.bpreg"
+            x["key"] = x["key"].replace("C15.key", "C01.bpreg")
+            keep.append(x)
+    del rep.results[n0:]
+    rep.results += keep
+    pat.require(keep, "bp: unregister-clears-tls instance vanished")
+
+
 RULES = [
     ("C01.skel", rule_skel),
     ("C01.scan", rule_scan),
@@ -746,5 +786,6 @@ RULES = [
     ("C01.pair", rule_pair),
     ("C01.merge", rule_merge),
     ("C01.const", rule_const),
+    ("C01.bpreg", rule_bpreg),
 ]
 FLOORS = {}
